@@ -202,7 +202,31 @@ fn check_pair(l: &mut Laws<'_>, i: usize, j: usize, reps: usize, rng: &mut Rng, 
             // ValueCow, owned and borrowed
             let cow_b = ValueCow::Borrowed(&a) == ValueCow::Borrowed(&b);
             let cow_o = ValueCow::Owned(a.clone()) == ValueCow::Owned(b.clone());
-            let cow_v = ValueCow::Borrowed(&a) == b;
+            let mut cow_v = ValueCow::Borrowed(&a) == b;
+            // ValueCow against the comparison view and against bare Rust scalars: all the same answer
+            let cow_view = ValueCow::Borrowed(&a) == ValueViewCmp::new(&b) && ValueCow::Owned(a.clone()) == ValueViewCmp::new(&b);
+            let cow_view_ne = !(ValueCow::Borrowed(&a) == ValueViewCmp::new(&b)) && !(ValueCow::Owned(a.clone()) == ValueViewCmp::new(&b));
+            if cow_view == cow_view_ne || cow_view != cow_v {
+                cow_v = !cow_b; // force the disagreement report below
+            }
+            match &rb {
+                RVal::Int(n) => {
+                    if (ValueCow::Borrowed(&a) == *n) != cow_b {
+                        cow_v = !cow_b;
+                    }
+                }
+                RVal::Bool(x) => {
+                    if (ValueCow::Borrowed(&a) == *x) != cow_b {
+                        cow_v = !cow_b;
+                    }
+                }
+                RVal::Str(x) => {
+                    if (ValueCow::Borrowed(&a) == *x.as_str()) != cow_b {
+                        cow_v = !cow_b;
+                    }
+                }
+                _ => {}
+            }
             (c, cv, rev, cow_b, cow_o, cow_v)
         });
         let (c, cv, rev, cow_b, cow_o, cow_v) = match r {
@@ -226,7 +250,7 @@ fn check_pair(l: &mut Laws<'_>, i: usize, j: usize, reps: usize, rng: &mut Rng, 
             l.fail("api-disagreement:Value-vs-ValueViewCmp", format!("{}: Value gives {cv}", desc()), i, j);
         }
         if cow_b != eq || cow_o != eq || cow_v != eq {
-            l.fail("api-disagreement:ValueCow", format!("{}: ValueCow borrowed/owned/vs-Value eq = {cow_b}/{cow_o}/{cow_v}", desc()), i, j);
+            l.fail("api-disagreement:ValueCow", format!("{}: ValueCow borrowed/owned/vs-Value|ValueViewCmp|bare-scalar eq = {cow_b}/{cow_o}/{cow_v}", desc()), i, j);
         }
         // construction independence
         match &first {
